@@ -257,6 +257,28 @@ pub fn emit_case_known(out: &mut dyn Write, group: &str, c: &Case, verbose: bool
     // ---- value of the terminal vs std (C01 C02 C03 C04 C06 C07 C09 C15)
     if c.panic_at.is_none() {
         if panicked {
+            // a call that panics returns nothing: the property of its terminal fails as well
+            let tag = match &c.term {
+                TermD::CollectVec | TermD::Collect => "C01",
+                TermD::CollectInto(_, pre, _) => {
+                    if pre.is_empty() {
+                        "C01"
+                    } else {
+                        "C06"
+                    }
+                }
+                TermD::CollectX => "C07",
+                TermD::Count | TermD::ForEach => "C04",
+                t if t.is_find_family() => "C02",
+                _ => "C03",
+            };
+            // (the two recorded C15 findings at the extreme chunk sizes are reported under C15 only)
+            if known.is_none() {
+                fails.push(format!("{}:call-panicked-instead-of-returning", tag));
+                if matches!(&c.term, TermD::CollectInto(..)) && tag == "C01" {
+                    fails.push("C06:call-panicked-instead-of-returning".into());
+                }
+            }
             fails.push("C15:panicked-without-injected-panic".into());
         } else {
             let ok = match &c.term {
@@ -1302,7 +1324,58 @@ pub fn run(out: &mut dyn Write, prop: &str, seed: u64, thorough: bool) -> std::i
                 emit_case(out, "large", &c, false)?;
                 total_c.set(total_c.get() + 1);
             }
+            // the only match sits at position p, for EVERY p up to 130 and around the powers of two
+            // up to 4096 (quick: 1025): a probe, a buffer or a poll of any constant size in that range
+            // has its boundary hit exactly
+            let mut positions: Vec<usize> = (0..=130).collect();
+            for k in [256usize, 512, 1024, 2048, 4096] {
+                if k <= 1024 || thorough {
+                    positions.extend([k - 1, k, k + 1]);
+                }
+            }
+            for (pi, &p) in positions.iter().enumerate() {
+                let shapes: [(&str, u8); 4] = [("", 0), ("M", 1), ("F", 2), ("X", 3)];
+                let (kinds, sh) = shapes[pi % 4];
+                let len = p + 1 + [0usize, 1, 7, p / 2 + 3][(pi / 4) % 4];
+                // values: distinct multiples of 4 (never matching), the one at p is ≡ 1 (mod 4) after the chain
+                let mut input: Vec<u64> = (0..len as u64).map(|i| 4 * i + 400).collect();
+                let ops: Vec<OpD> = match sh {
+                    1 => vec![OpD::Map { a: 1, b: 0 }],
+                    2 => vec![OpD::Filter { k: 1_000_003, r: 0 }],
+                    3 => vec![OpD::FlatMap { k: 2 }],
+                    _ => vec![],
+                };
+                let _ = kinds;
+                let pd = PredD { k: 4, r: 1 };
+                input[p] = 4 * p as u64 + 401;
+                if sh == 3 {
+                    // flat_map(2): x ↦ [3x] for odd x, [] for even x: only position p has an expansion, and only
+                    // position p produce a value ≡ 1 (mod 4): 3x ≡ 1 needs x ≡ 3 (mod 4)
+                    for (i, v) in input.iter_mut().enumerate() {
+                        *v = if i == p { 4 * i as u64 + 3 } else { 4 * i as u64 + 4 };
+                    }
+                }
+                let term = match (pi / 2) % 4 {
+                    0 => TermD::Find(pd),
+                    1 if sh <= 2 => TermD::FindIdx(pd),
+                    2 if sh <= 1 => TermD::Any(pd),
+                    _ => TermD::Find(pd),
+                };
+                let nt = 2 + pi % 4;
+                let mut sets = vec![vec![]; ops.len() + 1];
+                sets[0] = vec![SetD::NtUsize(nt)];
+                match pi % 3 {
+                    0 => {}
+                    1 => sets[0].push(SetD::CsUsize(1 + pi % 7)),
+                    _ => sets[0].push(SetD::CsEnum(ChunkSize::Min(nz(1 + pi % 5)))),
+                }
+                let src_kind = ['v', 'k', 'u'][pi % 3];
+                let c = Case { src_kind, input, ops, sets, term, mode: Mode::Free(0), panic_at: None };
+                emit_case(out, "match-position", &c, false)?;
+                total_c.set(total_c.get() + 1);
+            }
         }
+        "C02pos" => {}
         "C03" => {
             let mut t = vec![TermD::Sum, TermD::Min, TermD::Max, TermD::MinBy, TermD::MaxBy];
             for r in [RedD::Add, RedD::Xor, RedD::Min, RedD::Max] {
@@ -1399,7 +1472,21 @@ pub fn run(out: &mut dyn Write, prop: &str, seed: u64, thorough: bool) -> std::i
             }
             let mut o = base(t);
             o.src_kinds = vec!['v', 'k', 'u', 'u'];
-            go(out, &mut rng, "collect_into", &o, n(4000, 30000))?;
+            go(out, &mut rng, "collect_into", &o, n(3000, 24000))?;
+            // spare capacity chosen RELATIVE to the input and output lengths: room for fewer elements
+            // than the input has, for exactly the input length, for the input but not the output
+            // (flat_map), for exactly the output, for more
+            for _ in 0..n(1500, 10000) {
+                let mut c = gen_case(&mut rng, &o);
+                let out_len = seq_chain(&c.input, &c.ops).len();
+                let in_len = c.input.len();
+                if let TermD::CollectInto(k, pre, _) = c.term.clone() {
+                    let cap = *rng.pick(&[in_len.saturating_sub(1), in_len, in_len + 1, out_len.saturating_sub(1), out_len, out_len + 1, (in_len + out_len) / 2, in_len.max(out_len) + 7, in_len / 2]);
+                    c.term = TermD::CollectInto(k, pre, cap);
+                }
+                emit_case(out, "relative-capacity", &c, false)?;
+                total_c.set(total_c.get() + 1);
+            }
         }
         "C08" => {
             let mut t = collects(&mut rng);
